@@ -349,6 +349,20 @@ class DictV:
         return "D" + repr(self.items)
 
 
+class IterV:
+    """A one-shot iterator (filter / map / iter / generator results): yields its items once."""
+
+    def __init__(self, source, fn=None, kind="iter"):
+        self.source = source
+        self.fn = fn
+        self.kind = kind
+        self.consumed = False
+        self.uid = fresh_id()
+
+    def __repr__(self):
+        return f"<{self.kind} iterator{' (consumed)' if self.consumed else ''}>"
+
+
 class SetV:
     def __init__(self, items=None):
         self.items = list(items or [])
